@@ -482,7 +482,7 @@ pub fn run(cfg: &Cfg) -> i32 {
     let tier = cfg.tier;
     // registry-side history facts (term_max monotone, removal only after expiry) over the DataCap workload
     let mut agg = super::c09::run_focus(cfg, "C10");
-    agg.run_parallel("verified-sectors", tier.pick(16, 700), Duration::from_secs(tier.pick(300, 1700)), |i, rng| history(i, rng, tier, 0));
+    agg.run_parallel("verified-sectors", tier.pick(16, 350), Duration::from_secs(tier.pick(300, 1700)), |i, rng| history(i, rng, tier, 0));
     // directed hostile input: two equal-sized claims with different maximum terms, extension declaring one of them twice
     agg.run_parallel("repeated-claim-declaration", tier.pick(6, 60), Duration::from_secs(tier.pick(200, 900)), |i, rng| history(i, rng, tier, 1));
     // directed hostile input: claims declared in one declaration, the sector named again without claims in a second one
